@@ -202,8 +202,8 @@ func graphMain(args []string) {
 		var ops []gOp
 		if err := json.Unmarshal(sc.Bytes(), &ops); err != nil {
 			fmt.Fprintln(os.Stderr, "bad scenario:", err)
-			out.Flush()
-			os.Exit(2)
+			flushOut()
+			os.Exit(4)
 		}
 		run++
 		emit(M{"ev": "reset", "run": run})
